@@ -503,7 +503,9 @@ def _run(ctx: kernel.Ctx, case: Dict[str, Any], loc: Dict[str, Any], tmp: str) -
         ctx.report("C20/elite_changed", msg, **loc)
     if case["checkpoint"]:
         files = sorted(glob.glob(ckpt_path + "_*.pt"))
-        if not files:
+        if not files and new_pop[0].steps[-1] < ckpt:
+            ctx.probe("checkpoint_threshold_not_reached_by_first_member")
+        elif not files:
             ctx.report("C20/checkpoint_missing", f"checkpoint={ckpt} but no checkpoint file was written (steps {now})", **loc)
         else:
             ctx.probe("checkpoint_written")
